@@ -1,8 +1,191 @@
-//! Harness-defined blocks built with #[derive(rustradio_macros::Block)] (C19).
+//! Harness-defined blocks built with #[derive(rustradio_macros::Block)] (C19):
+//! sync / sync_tag blocks with 1..3 inputs and outputs, default / into fields,
+//! and a non-sync block with a packet output for the generated constructor.
+//! Each output is a function that identifies its inputs, so wiring is visible.
 use crate::bench::*;
 use crate::common::*;
+use crate::graphs::Big;
+use rustradio::block::{Block, BlockRet};
+use rustradio::stream::{NCWriteStream, ReadStream, Tag, WriteStream};
+use rustradio::Result;
 use serde_json::Value;
+use std::borrow::Cow;
 
-pub fn make(spec: &Value, _rng: &mut Rng) -> Result<Rig, String> {
-    Err(format!("unknown block {}", spec["block"]))
+fn v(x: Big) -> u64 {
+    x.val().unwrap_or(9_999_999)
+}
+
+#[derive(rustradio_macros::Block)]
+#[rustradio(new, sync)]
+pub struct U11 {
+    #[rustradio(in)]
+    a: ReadStream<Big>,
+    #[rustradio(out)]
+    o: WriteStream<Big>,
+}
+impl U11 {
+    fn process_sync(&self, a: Big) -> Big {
+        Big::of(v(a) + 1)
+    }
+}
+
+#[derive(rustradio_macros::Block)]
+#[rustradio(new, sync)]
+pub struct U21 {
+    #[rustradio(in)]
+    a: ReadStream<Big>,
+    #[rustradio(in)]
+    b: ReadStream<Big>,
+    #[rustradio(out)]
+    o: WriteStream<Big>,
+    #[rustradio(default)]
+    count: u64,
+    #[rustradio(into)]
+    label: String,
+    scale: u64,
+}
+impl U21 {
+    fn process_sync(&mut self, a: Big, b: Big) -> Big {
+        self.count += 1;
+        let _ = &self.label;
+        Big::of(v(a) + self.scale * v(b))
+    }
+}
+
+#[derive(rustradio_macros::Block)]
+#[rustradio(new, sync)]
+pub struct U32 {
+    #[rustradio(in)]
+    a: ReadStream<Big>,
+    #[rustradio(in)]
+    b: ReadStream<Big>,
+    #[rustradio(in)]
+    c: ReadStream<Big>,
+    #[rustradio(out)]
+    o1: WriteStream<Big>,
+    #[rustradio(out)]
+    o2: WriteStream<Big>,
+}
+impl U32 {
+    fn process_sync(&self, a: Big, b: Big, c: Big) -> (Big, Big) {
+        (Big::of(v(a) + 10 * v(b) + 100 * v(c)), Big::of(v(c) + 10 * v(a)))
+    }
+}
+
+#[derive(rustradio_macros::Block)]
+#[rustradio(new, sync)]
+pub struct U13 {
+    #[rustradio(in)]
+    a: ReadStream<u8>,
+    #[rustradio(out)]
+    o1: WriteStream<u8>,
+    #[rustradio(out)]
+    o2: WriteStream<u32>,
+    #[rustradio(out)]
+    o3: WriteStream<u8>,
+}
+impl U13 {
+    fn process_sync(&self, a: u8) -> (u8, u32, u8) {
+        (a, a as u32 + 1000, a ^ 0xff)
+    }
+}
+
+/// sync_tag with two inputs: forwards the tags of the SECOND input.
+#[derive(rustradio_macros::Block)]
+#[rustradio(new, sync_tag)]
+pub struct T21 {
+    #[rustradio(in)]
+    a: ReadStream<Big>,
+    #[rustradio(in)]
+    b: ReadStream<Big>,
+    #[rustradio(out)]
+    o: WriteStream<Big>,
+}
+impl T21 {
+    fn process_sync_tags<'a>(&mut self, a: Big, _ta: &'a [Tag], b: Big, tb: &'a [Tag]) -> (Big, Cow<'a, [Tag]>) {
+        (Big::of(v(a) + 10 * v(b)), Cow::Borrowed(tb))
+    }
+}
+
+/// Not sync: generated new() with a packet output and a stream output.
+#[derive(rustradio_macros::Block)]
+#[rustradio(new)]
+pub struct P12 {
+    #[rustradio(in)]
+    src: ReadStream<u8>,
+    #[rustradio(out)]
+    pkts: NCWriteStream<Vec<u8>>,
+    #[rustradio(out)]
+    copy: WriteStream<u8>,
+    #[rustradio(default)]
+    pending: Vec<u8>,
+}
+impl Block for P12 {
+    fn work(&mut self) -> Result<BlockRet> {
+        let (i, _tags) = self.src.read_buf()?;
+        if i.is_empty() {
+            return Ok(BlockRet::WaitForStream(&self.src, 1));
+        }
+        let mut o = self.copy.write_buf()?;
+        if o.is_empty() {
+            return Ok(BlockRet::WaitForStream(&self.copy, 1));
+        }
+        let n = i.len().min(o.len());
+        for k in 0..n {
+            let s = i.slice()[k];
+            o.slice()[k] = s;
+            self.pending.push(s);
+            if self.pending.len() == 2 {
+                self.pkts.push(std::mem::take(&mut self.pending), &[]);
+            }
+        }
+        i.consume(n);
+        o.produce(n, &[]);
+        Ok(BlockRet::Again)
+    }
+}
+
+fn ring_in<T: Val>(spec: &Value, port: usize, rng: &mut Rng) -> (Box<dyn InPort>, ReadStream<T>) {
+    crate::blocks::ring_in::<T>(spec, port, rng)
+}
+
+pub fn make(spec: &Value, rng: &mut Rng) -> std::result::Result<Rig, String> {
+    let name = spec["block"].as_str().unwrap_or("");
+    match name {
+        "U11" => {
+            let (i, r) = ring_in::<Big>(spec, 0, rng);
+            let (b, o) = U11::new(r);
+            Ok(Rig { block: Box::new(b), ins: vec![i], outs: vec![Box::new(OutRing::new(o))] })
+        }
+        "U21" => {
+            let (i1, r1) = ring_in::<Big>(spec, 0, rng);
+            let (i2, r2) = ring_in::<Big>(spec, 1, rng);
+            let (b, o) = U21::new(r1, r2, "lbl", 10);
+            Ok(Rig { block: Box::new(b), ins: vec![i1, i2], outs: vec![Box::new(OutRing::new(o))] })
+        }
+        "U32" => {
+            let (i1, r1) = ring_in::<Big>(spec, 0, rng);
+            let (i2, r2) = ring_in::<Big>(spec, 1, rng);
+            let (i3, r3) = ring_in::<Big>(spec, 2, rng);
+            let (b, o1, o2) = U32::new(r1, r2, r3);
+            Ok(Rig { block: Box::new(b), ins: vec![i1, i2, i3], outs: vec![Box::new(OutRing::new(o1)), Box::new(OutRing::new(o2))] })
+        }
+        "U13" => {
+            let (i, r) = ring_in::<u8>(spec, 0, rng);
+            let (b, o1, o2, o3) = U13::new(r);
+            Ok(Rig { block: Box::new(b), ins: vec![i], outs: vec![Box::new(OutRing::new(o1)), Box::new(OutRing::new(o2)), Box::new(OutRing::new(o3))] })
+        }
+        "T21" => {
+            let (i1, r1) = ring_in::<Big>(spec, 0, rng);
+            let (i2, r2) = ring_in::<Big>(spec, 1, rng);
+            let (b, o) = T21::new(r1, r2);
+            Ok(Rig { block: Box::new(b), ins: vec![i1, i2], outs: vec![Box::new(OutRing::new(o))] })
+        }
+        "P12" => {
+            let (i, r) = ring_in::<u8>(spec, 0, rng);
+            let (b, pk, cp) = P12::new(r);
+            Ok(Rig { block: Box::new(b), ins: vec![i], outs: vec![Box::new(OutPkt::new(pk)), Box::new(OutRing::new(cp))] })
+        }
+        _ => Err(format!("unknown block {name}")),
+    }
 }
